@@ -129,7 +129,7 @@ def big_script_units(script):
         else:
             raise ValueError(t)
     if cur:
-        raise ValueError("annexbig scripts must end with r")
+        raise ValueError("annexbig scripts must end with r (or a: abandoned, handled by the caller)")
     return units
 
 
@@ -138,6 +138,10 @@ def big_check(case, answer):
     import zlib
     p = case.lstrip("!").split()
     mode, script = p[1], p[2]
+    abandoned = script.endswith(",a")
+    if abandoned:
+        # the reader is dropped without a reset: what reset would have completed stays an incomplete view at best
+        script = script[:-2] + ",r"
     units = big_script_units(script)
     toks = answer.split()
     if mode == "F":
@@ -166,7 +170,7 @@ def big_check(case, answer):
         else:
             if ln > len(unit) or crc != "%08x" % zlib.crc32(unit[:ln]):
                 return "incomplete view of NAL %d is not a prefix of it: %s" % (u, t)
-    if u != len(nonempty):
+    if u != len(nonempty) and not (abandoned and u == len(nonempty) - 1):
         return "%d NALs completed, the stream holds %d" % (u, len(nonempty))
     return None
 
